@@ -12,5 +12,6 @@ CONSTANTS
   FwdHonoursTerm = TRUE
   InitViaQueue = FALSE
   ClearCache = TRUE
+  DrainKeepsTerm = FALSE
 INVARIANTS TypeOK NoEventAfterTerminated
 ALIAS BehAlias
